@@ -21,6 +21,8 @@ type Gen struct {
 	objs    []string // variables known to hold objects
 	uniq    int
 	params  []string
+	// MaxDepth bounds statement nesting (default 3); MaxTop bounds the number of top-level statements (default 5)
+	MaxDepth, MaxTop int
 }
 
 type lab struct {
@@ -32,7 +34,7 @@ type fnInfo struct {
 	arity int
 }
 
-func NewGen(seed int64) *Gen { return &Gen{r: rand.New(rand.NewSource(seed))} }
+func NewGen(seed int64) *Gen { return &Gen{r: rand.New(rand.NewSource(seed)), MaxDepth: 3, MaxTop: 5} }
 
 func (g *Gen) pick(n int) int { return g.r.Intn(n) }
 func (g *Gen) chance(p int) bool { return g.r.Intn(100) < p }
@@ -467,11 +469,11 @@ func (g *Gen) Program() []N {
 	// hoisted function declarations
 	for i, n := 0, g.pick(3); i < n; i++ {
 		name := g.fresh("g")
-		fn := g.function(3, name, false)
+		fn := g.function(g.MaxDepth, name, false)
 		fn["k"] = "fdecl"
 		body = append(body, fn)
 		g.funcs = append(g.funcs, fnInfo{name, len(fn["params"].([][]int))})
 	}
-	body = append(body, g.block(3, 2+g.pick(4))...)
+	body = append(body, g.block(g.MaxDepth, 2+g.pick(g.MaxTop-1))...)
 	return body
 }
